@@ -1,7 +1,7 @@
 #!/bin/bash
 # usage: mk_seed_wt.sh <Cxx> ...  -- scratch worktrees of /repo HEAD under /tmp/wt2 with a copy of /repo/target, property text under /tmp/wtout2
 for P in "$@"; do
-  mkdir -p /tmp/wt2 /tmp/wtout2/$P/e
+  mkdir -p /tmp/wt2 /tmp/wtout2/$P/f
   [ -d /tmp/wt2/$P ] || git -C /repo worktree add -q --detach /tmp/wt2/$P HEAD
   [ -d /tmp/wt2/$P/target ] || cp -a --reflink=auto /repo/target /tmp/wt2/$P/target
   python3 - <<PY
